@@ -409,6 +409,68 @@ pub fn oracle(f: u32, a: &Args, out: &Args) -> Option<(&'static str, String)> {
             }
             None
         }
+        661 => {
+            // C02 / C18 on the implementation alone (the request seen by an independent peer; the
+            // outcome as a function of the response status)
+            if out.len() < 6 || a[0][0] != 0 {
+                return None;
+            }
+            use wtransport::proto::frame::Frame;
+            use wtransport::proto::headers::Headers;
+            let mut extra: Vec<(String, String)> = vec![];
+            for c in a[3..].chunks(2) {
+                if c.len() == 2 {
+                    extra.push((String::from_utf8_lossy(&a2b(&c[0])).into_owned(), String::from_utf8_lossy(&a2b(&c[1])).into_owned()));
+                }
+            }
+            const RESERVED: [&str; 5] = [":method", ":scheme", ":protocol", ":authority", ":path"];
+            if extra.iter().any(|(k, _)| RESERVED.contains(&k.to_ascii_lowercase().as_str())) {
+                return None;
+            }
+            if out[0].len() == 2 && out[2].is_empty() {
+                return Some(("C02", "the peer received no well-formed HEADERS frame as the session request".into()));
+            }
+            let req = match Headers::with_frame(&Frame::new_headers(a2b(&out[2]).into())) {
+                Ok(h) => h,
+                Err(_) => return Some(("C02", "the session request's field section does not decode".into())),
+            };
+            let authority = format!("127.0.0.1:{}", out[5][0]);
+            let mut want: Vec<(&str, &str)> = vec![(":method", "CONNECT"), (":scheme", "https"), (":protocol", "webtransport"), (":authority", &authority), (":path", "/client/path?q=1")];
+            for (k, v) in &extra {
+                want.push((k, v));
+            }
+            for (k, v) in want {
+                if req.get(k) != Some(v) {
+                    return Some(("C02", format!("request field {} is {:?}, expected {:?}", k, req.get(k), v)));
+                }
+            }
+            // outcome: only for a response that is exactly one decodable HEADERS frame left open
+            if a[2] == vec![2] {
+                let rb = a2b(&a[1]);
+                let mut r: &[u8] = &rb;
+                if let Ok(Some(fr)) = Frame::read(&mut r) {
+                    if r.is_empty() && matches!(fr.kind(), wtransport::proto::frame::FrameKind::Headers) {
+                        if let Ok(h) = Headers::with_frame(&fr) {
+                            if let Some(st) = h.get(":status") {
+                                if st.len() == 3 && st.bytes().all(|c| c.is_ascii_digit()) && st.as_bytes()[0] != b'0' {
+                                    let code: u16 = st.parse().unwrap();
+                                    let ok = (200..300).contains(&code);
+                                    if (100..600).contains(&code) {
+                                        if ok && out[1].first() != Some(&0) {
+                                            return Some(("C02+C18", format!("response status {} but connect() returned {:?}", code, out[1])));
+                                        }
+                                        if !ok && out[1] != vec![1] {
+                                            return Some(("C02+C18", format!("response status {} but connect() returned {:?} instead of SessionRejected", code, out[1])));
+                                        }
+                                    }
+                                }
+                            }
+                        }
+                    }
+                }
+            }
+            None
+        }
         _ => None,
     }
 }
@@ -496,6 +558,13 @@ pub fn generate(rng: &mut Rng, thorough: bool, which: &str) -> Vec<Case> {
             let mut args = vec![vec![0, 0], b2a(&response_bytes("200", &[])), vec![2]];
             args.extend(hdrs);
             cs.push(Case::new(661, args, "request-headers"));
+            // names that sort below ':' and values whose Huffman form is longer than the raw one
+            let mut args = vec![vec![0, 0], b2a(&response_bytes("200", &[])), vec![2]];
+            for (k, v) in [("1st-party", "yes"), ("-x-legacy", "v"), ("x-filter", "{\"a\":[1,2]}"), ("x-uni", "caf\u{e9} \u{2603}"), ("x-empty", "")] {
+                args.push(b2a(k.as_bytes()));
+                args.push(b2a(v.as_bytes()));
+            }
+            cs.push(Case::new(661, args, "request-headers-hostile"));
             cs.push(Case::new(661, vec![vec![0, 0], b2a(&response_bytes("200", &[])), vec![2], b2a(b":path"), b2a(b"/evil")], "reserved-header"));
         }
         _ => {}
